@@ -721,6 +721,14 @@ def enumerated(tier):
     for noise in (False, True):
         yield {"noise": noise, "steps": [{"op": "sub", "id": "s0", "kind": "logs", "level": 5, "dump": None}, {"op": "chunk", "msgs": [lg]}, {"op": "relog", "id": "s0", "level": 7, "dump": True},
                                          {"op": "chunk", "msgs": [lg, lg]}, {"op": "relog", "id": "s0", "level": 1, "dump": None}, {"op": "chunk", "msgs": [lg]}]}
+    # a second consumer of the same kind joins (its own handler) and leaves: the first one keeps receiving throughout
+    two = {"logs": lg, "connfree": {"t": "connfree", "free": 1, "limit": 3}, "rawadv": {"t": "rawadv", "spec": {"advertisements": [{"address": 5, "rssi": -1, "data": {"hex": "0201"}}]}},
+           "svc": {"t": "svc", "spec": {"service": "a.b"}}, "states": {"t": "state", "cls": "SwitchStateResponse", "spec": {"key": 1, "state": True}}}
+    for kind, m in two.items():
+        for noise in (False, True):
+            extra = {"level": 5, "dump": None} if kind == "logs" else {}
+            yield {"noise": noise, "steps": [{"op": "sub", "id": "s0", "kind": kind, **extra}, {"op": "chunk", "msgs": [m]}, {"op": "sub", "id": "s1", "kind": kind, **({"level": 7, "dump": None} if kind == "logs" else {})},
+                                             {"op": "chunk", "msgs": [m, m]}, {"op": "unsub", "id": "s1"}, {"op": "chunk", "msgs": [m]}, {"op": "unsub", "id": "s0"}, {"op": "chunk", "msgs": [m]}]}
     # a used-up unsubscribe function called again must not touch the subscription that replaced it
     cf = {"t": "connfree", "free": 1, "limit": 3}
     for noise in (False, True):
